@@ -6,6 +6,7 @@ import (
 	"go/token"
 	"go/types"
 	"sort"
+	"strings"
 
 	"golang.org/x/tools/go/ssa"
 )
@@ -726,6 +727,41 @@ func checkUnknownAttrs(r *Run, rc *RuleCtx, le *linEval, add *ssa.Function) {
 	if !okR || !okStep {
 		rc.Violation(g, g.Pos(), "UNKNOWN-ATTRIBUTES reader", "entries must be read as consecutive 16-bit values (stride 2)")
 	}
+	// each entry is stored as read: a conversion of the 16-bit value, nothing else (no alias translation:
+	// that belongs to attribute headers, not to list entries)
+	eachInstr(g, func(b *ssa.BasicBlock, i int, in ssa.Instruction) {
+		ap, ok := in.(*ssa.Call)
+		if !ok || !isBuiltinCall(ap, "append") || len(ap.Call.Args) != 2 {
+			return
+		}
+		// append(list, elem): the variadic argument is a one-element slice literal
+		var elems []ssa.Value
+		if sl, isSl := ap.Call.Args[1].(*ssa.Slice); isSl {
+			if al, isAl := sl.X.(*ssa.Alloc); isAl {
+				for _, u := range *al.Referrers() {
+					if ia, isIA := u.(*ssa.IndexAddr); isIA {
+						for _, u2 := range *ia.Referrers() {
+							if st, isSt := u2.(*ssa.Store); isSt && st.Addr == ssa.Value(ia) {
+								elems = append(elems, st.Val)
+							}
+						}
+					}
+				}
+			}
+		}
+		for _, e := range elems {
+			raw := false
+			if c, isC := stripConvs(e).(*ssa.Call); isC {
+				if name, w, _, okA := accessorCall(c); okA && w == 2 && strings.HasPrefix(name, "Uint") {
+					raw = true
+				}
+			}
+			rc.Instance("UNKNOWN-ATTRIBUTES|reader entry", true, map[string]string{"entry": exprDepth(e, 0)})
+			if !raw {
+				rc.Violation(g, instrPos(ap), "UNKNOWN-ATTRIBUTES entry "+exprDepth(e, 0), "a list entry is not the 16-bit value as read: some attribute type does not read back as it was written")
+			}
+		}
+	})
 	if !okMod {
 		rc.Violation(g, g.Pos(), "UNKNOWN-ATTRIBUTES reader length test", "a value whose length is not a multiple of 2 must be rejected, every even length accepted")
 	}
